@@ -205,7 +205,8 @@ func Steps(t *rapid.T, p *drive.Program, o ProgOpts) []drive.Step {
 		case "del":
 			steps = append(steps, drive.Step{Op: "del", K: rapid.IntRange(0, nk-1).Draw(t, "k")})
 		case "tx", "batch":
-			m := rapid.IntRange(1, o.MaxTxOps).Draw(t, "ntx")
+			// size 0 included: an empty batch / a transaction that commits nothing
+			m := rapid.IntRange(0, o.MaxTxOps).Draw(t, "ntx")
 			var body []drive.TxOp
 			used := map[int]bool{}
 			for j := 0; j < m; j++ {
